@@ -159,6 +159,17 @@ func (d *SimDB) Unlock(c context.Context, id *url.URL) error {
 	}
 	if idx < 0 {
 		d.s.violate("C09", "unlock-not-held", callerFn(), fmt.Sprintf("task %s unlocks %s which it does not hold", t.ID, ids))
+		// a good-faith application keeps one mutex per id: unlocking it releases whoever holds it
+		if other := d.s.locks[key]; other != nil && other != t {
+			delete(d.s.locks, key)
+			for i, h := range other.held {
+				if h == key {
+					other.held = append(other.held[:i], other.held[i+1:]...)
+					break
+				}
+			}
+			d.s.probe("foreign-lock-released")
+		}
 	} else {
 		t.held = append(t.held[:idx], t.held[idx+1:]...)
 		if d.s.locks[key] == t {
@@ -396,7 +407,14 @@ func (d *SimDB) NewID(c context.Context, t vocab.Type) (*url.URL, error) {
 	if t != nil {
 		kind = strings.ToLower(t.GetTypeName())
 	}
-	id := fmt.Sprintf("https://%s/%s/%s-%d", d.host(), kind, strings.ReplaceAll(task.ID, ".", "_"), n)
+	scheme := d.srv.Spec.MintScheme
+	if scheme == "" {
+		scheme = d.srv.Spec.Scheme
+	}
+	if scheme == "" {
+		scheme = "https"
+	}
+	id := fmt.Sprintf("%s://%s/%s/%s-%d", scheme, d.host(), kind, strings.ReplaceAll(task.ID, ".", "_"), n)
 	d.s.logEv(Event{Srv: d.host(), Kind: "db.NewID", Res: id})
 	u, _ := url.Parse(id)
 	return u, nil
